@@ -168,7 +168,7 @@ pub fn campaigns(ctx: &Ctx) -> Stats {
             let fan = crate::scale::fan_in_cases("c11", t == Tier::Thorough);
             st.merge(ctx.run_indexed("one-node-consumed-up-to-70001-times", fan.len() as u64, None, |i| Some(fan[i as usize].clone())));
         }
-        let (len, total) = t.pick((14usize, 40000u64), (40, 600000));
+        let (len, total) = t.pick((14usize, 160000u64), (40, 600000));
         for (name, exact) in [("mixed-custom-and-builtin-programs-exact", true), ("mixed-custom-and-builtin-programs", false)] {
             let cfg = custom_cfg(t, exact);
             st.merge(ctx.run_prop(name, total / 2, move || recipe_strategy(len), move |r| Some(Case11::H(HistCase { oracle: "c11".into(), hist: elaborate(&cfg, r) }))));
